@@ -82,7 +82,7 @@ def run(prop, fmt, features, kf_classes=None, argv=None):
         if cls:
             kf = None
             for kid, keys, feat in kf_classes:
-                if cls in keys and (feat is None or feat in d._features):
+                if any((cls.startswith(k_[:-1]) if k_.endswith("*") else cls == k_) for k_ in keys) and (feat is None or feat in d._features):
                     kf = kid
             fk = (cls, kf)
             if fk not in failures or len(common.describe(d)) < failures[fk]["size"]:
